@@ -292,7 +292,7 @@ def s4_constructors(ctx):
                        ("unyt_quantity", "unyt_quantity(3.0, 'm')", ("unyt", "unyt_quantity", "()")),
                        ("str", "'abc'", ("nonNumeric", "_", "_")), ("emptylist", "[]", ("emptyList", "_", "_"))]
         if shp == (1,):
-            inputs += [("q[None]", "unyt_quantity(3.0, 'm')[None]", ("unyt", "unyt_quantity", "1"))]
+            inputs += [("q1", "unyt_quantity(np.array([3.0]), 'm')", ("unyt", "unyt_quantity", "1"))]
         if len(shp) >= 1 and all(shp):
             inputs += [("list", "a.tolist()", ("list", L.shape_w(shp), "_")),
                        ("tuple", "tuple(a.tolist())", ("list", L.shape_w(shp), "_"))]
@@ -331,7 +331,7 @@ def s4_constructors(ctx):
         datas.append((f"unyt_array{shp}", f"unyt_array((np.arange({int(np.prod(shp)) if shp else 1}, dtype=float) + 1.0).reshape({shp!r}), 's', name='p')", shp))
         datas.append((f"intarray{shp}", f"np.ones({shp!r}, dtype=int)", shp))
     datas.append(("quantity", "unyt_quantity(3.0, 's')", ()))
-    datas.append(("q[None]", "unyt_quantity(3.0, 's')[None]", (1,)))
+    datas.append(("q1", "unyt_quantity(np.array([3.0]), 's')", (1,)))
     for dname, dsrc, shp in datas:
         for form, expr in (("data*unit", "data * m"), ("unit*data", "m * data"), ("data/unit", "data / m"), ("unit/data", "m / data")):
             src = L.SETUP + f"data = {dsrc}\nr = {expr}\n"
@@ -483,7 +483,7 @@ def operand(kind, shape, unit):
     if kind == "Q":
         return "unyt_quantity", f"unyt_quantity(3.0, {u})", True
     if kind == "Q1":
-        return "unyt_quantity", f"unyt_quantity(3.0, {u})[None]", True
+        return "unyt_quantity", f"unyt_quantity(np.array([3.0]), {u})", True
     if kind == "SQ":
         return "subQ", f"subQ(3.0, {u})", True
     if kind == "N":
@@ -746,17 +746,14 @@ def s7_functions(ctx):
 # S8 — the witnesses of the `…_counterexample` theorems, replayed on the real code
 
 WITNESSES = [
-    ("C16_getitem_counterexample", "r = unyt_quantity(3.0, 'm')[None][[0, 0]]", "unyt_quantity", (2,)),
-    ("C16_getitem_counterexample(step 1)", "r = unyt_quantity(3.0, 'm')[None]", "unyt_quantity", (1,)),
-    ("C16_view_counterexample(squeeze)", "r = unyt_array([1.0], 'm').squeeze()", "unyt_array", ()),
     ("C16_view_counterexample(reshape)", "r = unyt_array([1.0], 'm').reshape(())", "unyt_array", ()),
     ("C16_view_counterexample(repeat)", "r = unyt_quantity(3.0, 'm').repeat(2)", "unyt_quantity", (2,)),
-    ("multiOut_counterexample(modf)", "r = np.modf(unyt_array(3.5, 'm'))[0]", "unyt_array", ()),
-    ("multiOut_counterexample(divmod size 1)", "r = np.divmod(unyt_quantity(7.0, 'm'), np.array([2.0]))[0]", "unyt_quantity", (1,)),
-    ("multiOut_counterexample(divmod refusal)", "r = np.divmod(unyt_quantity(7.0, 'm'), np.array([2.0, 3.0]))", "RuntimeError", None),
-    ("C16_handlers_counterexample(clip)", "q = unyt_quantity(3.0, 'm'); r = np.clip(q, 0 * q, q, out=unyt_array(0.0, 'm'))", "unyt_array", ()),
-    ("C16_handlers_counterexample(around)", "r = np.around(unyt_quantity(3.2, 'm'), out=unyt_array(0.0, 'm'))", "unyt_array", ()),
-    ("C16_handlers_counterexample(choose)", "q = unyt_quantity(3.0, 'm'); r = np.choose(0, [q, q], out=unyt_array(0.0, 'm'))", "unyt_array", ()),
+    # behaviour the full-strength theorems now state (fixed defects): examples of C16.lean
+    ("C16_getitem(example)", "r = unyt_quantity(3.0, 'm')[None]", "unyt_array", (1,)),
+    ("C16_getitem(example)", "r = unyt_quantity(np.array([3.0]), 'm')[[0, 0]]", "unyt_array", (2,)),
+    ("squeeze_strict(example)", "r = unyt_array([[1.0]], 'm').squeeze()", "unyt_quantity", ()),
+    ("ufunc_wrap_class_iff_shape(example)", "r = np.divmod(unyt_quantity(7.0, 'm'), np.array([2.0, 3.0]))[0]", "unyt_array", (2,)),
+    ("ufunc_wrap_class_iff_shape(example)", "r = np.divmod(unyt_quantity(7.0, 'm'), unyt_quantity(2.0, 'm'))[1]", "unyt_quantity", ()),
 ]
 
 
@@ -772,4 +769,4 @@ def s8_witnesses(ctx):
         else:
             got = (L.cls_name(env["r"]), tuple(env["r"].shape))
         if got != (want_cls, want_shape):
-            chk.disagree("witness", f"{thm}: `{code}` gives {got}, the counterexample theorem says {(want_cls, want_shape)} — the excluded region changed (was a fix applied? then drop the exclusion)")
+            chk.disagree("witness", f"{thm}: `{code}` gives {got}, the theorem / example says {(want_cls, want_shape)} — the model no longer describes this path")
